@@ -5,13 +5,16 @@ base = json.load(open("/root/.vp/BASELINE.json"))
 stable = set(base["stable_pass"])
 env = dict(os.environ, CARGO_NET_OFFLINE="true")
 p = subprocess.run(["cargo", "test", "--workspace", "--no-fail-fast", "--offline"], cwd="/repo", env=env, stdout=subprocess.PIPE, stderr=subprocess.STDOUT, text=True)
-res = {}
-for m in re.finditer(r"test (\S+::\S+) \.\.\. (\w+)", p.stdout):
-    res["physis::" + m.group(1)] = m.group(2)
-bad = sorted(t for t in stable if res.get(t) != "ok")
-print("stable tests passing: %d/%d" % (len(stable) - len(bad), len(stable)))
+ran = set("physis::" + m.group(1) for m in re.finditer(r"test (\S+::\S+) \.\.\.", p.stdout))
+failed = set()
+for blk in re.finditer(r"\nfailures:\n((?:    \S+\n)+)", p.stdout):
+    for l in blk.group(1).split("\n"):
+        if l.strip():
+            failed.add("physis::" + l.strip())
+bad = sorted(t for t in stable if t not in ran or t in failed)
+print("stable tests passing: %d/%d (failed overall: %s)" % (len(stable) - len(bad), len(stable), sorted(failed)))
 for t in bad:
-    print("  NOT OK:", t, res.get(t))
-if "error" in p.stdout and not res:
+    print("  NOT OK:", t, "failed" if t in failed else "did not run")
+if not ran:
     print(p.stdout[-3000:])
 sys.exit(1 if bad else 0)
